@@ -123,3 +123,22 @@ Example C08_ex :
   snd (step_msg ex_cfg ex_paused authority_address (MPauseCC "PROTOCOL_CCTP" ["1"; "0"]) []) = OutMsg 1 [] /\
   snd (step_msg ex_cfg ex_paused "noble1user" (MUnpauseCC "PROTOCOL_CCTP" ["0"]) []) = OutMsg 1 [].
 Proof. vm_compute. repeat split; reflexivity. Qed.
+
+(* ---------- on ANY chain, whatever its Hyperlane hooks charge for gas: a transfer that is executed there is
+   executed on the chain without charging hooks too (C05_requests_any_hooks), so the gate holds as it stands ---------- *)
+From Orbiter Require Import Proofs.GasHistories.
+Theorem C08_gate_any_hooks : forall g cfg e w p tape,
+  rr_out (recv_gas g cfg e w p tape 0) = OAckOk ->
+  exists denom amount sender receiver pl f a cp,
+    pk_data p = PIcs denom amount sender receiver (Ok pl) /\ p_fwd pl = Some f /\
+    f_attrs f = Some a /\ counterparty_of a = Some cp /\
+    smem cmp_z (f_pid f) (paused_protos (w_o w)) = false /\
+    smem cmp_cc (f_pid f, cp) (paused_cc (w_o w)) = false /\
+    (p_pre pl <> [] -> smem cmp_z action_fee (paused_actions (w_o w)) = false) /\
+    slen (f_pass f) <= pass_limit (w_o w).
+Proof. intros g cfg e w p tape H. apply (success_gates cfg e w p tape). exact (proj1 (success_trace_hooks g cfg e w p tape H)). Qed.
+Print Assumptions C08_gate_any_hooks.
+Theorem C08_only_messages_any_hooks : forall g cfg e w p tape lie,
+  controls (w_o (rr_world (recv_gas g cfg e w p tape lie))) = controls (w_o w).
+Proof. exact recv_gas_controls. Qed.
+Print Assumptions C08_only_messages_any_hooks.
